@@ -51,6 +51,16 @@ def check(v, hists):
             if "height" in e:
                 by_height[e["height"]].append(e)
         for height, evs in sorted(by_height.items()):
+            # does this height show the known situation D18 (a transaction valid only after an earlier one of the same block)? Then the
+            # control twin of the honest proposal is refused for the same reason and is reported under the same signature
+            d18 = ""
+            for pe in evs:
+                if pe["kind"] == "abci" and pe["call"] == "process" and pe.get("class") in ("decided", "abandoned_honest") and pe["result"] != "ok":
+                    ids = []
+                    for qe in evs:
+                        if qe["kind"] == "abci" and qe["call"] == "prepare" and qe.get("block") == pe.get("block"):
+                            ids = qe.get("tx_ids") or []
+                    d18 = d18 or chainlog.construct_context(pe["result"], ids, built_by_id)
             for e in evs:
                 wit = {"hist": list(h.key), "height": height, "event": {k: e[k] for k in e if k not in ("_file",)}}
                 if e["kind"] == "abci" and e["call"] == "prepare" and e["result"] != "ok":
@@ -122,7 +132,10 @@ def check(v, hists):
                         if acc:
                             v.saw("controls_accepted")
                         else:
-                            v.violate("C06/control-proposal-rejected/" + cls, "a well-formed control proposal (%s) was rejected" % cls, wit)
+                            if d18 and cls == "control_honest_proposal":
+                                v.violate("C06/honest-proposal-rejected/construct" + d18, "the control twin of the honest proposal was rejected for the same reason as the proposal itself", wit)
+                            else:
+                                v.violate("C06/control-proposal-rejected/" + cls, "a well-formed control proposal (%s) was rejected" % cls, wit)
                     else:
                         v.saw("mutants_either_answer")
                     if len(v.samples) < 5 and must and cls.startswith("sequenced"):
